@@ -4,12 +4,13 @@
     produces).  Statements only; proofs in Proofs/RunSound.v. *)
 From PM Require Import Model.Prelude Model.Domain Model.Constraint Model.Automaton Model.Traversal
   Model.DomString Model.DomMatrix Cert.LabCheck Cert.CharCert Cert.ExampleAut
-  Proofs.RunSound Proofs.LawfulDomains Proofs.BindMapMatrixProofs.
+  Proofs.RunSound Proofs.LawfulDomains Proofs.BindMapMatrixProofs
+  Spec.Occ Proofs.OccProofs Proofs.CellsProofs Proofs.OccString Proofs.OccMatrix.
 
 (** generic over the domain: lawful binding maps, any host, any execution *)
 Theorem c01_run_sound :
   forall (K V M H P : Type) (D : DomOps K V M H P), DomEq D ->
-  forall (Inv : M -> Prop) (goodb : list K -> bool)
+  forall (Inv : H -> M -> Prop) (goodb : list K -> bool)
          (atoms : constraint K P -> list (constraint K P)),
     Lawful D Inv goodb ->
     (forall h c m, (forall a, In a (atoms c) -> holds D h a m) -> holds D h c m) ->
@@ -19,8 +20,9 @@ Theorem c01_run_sound :
       forall (h : H) (fuel : nat) (ms : list (N * M)),
         run D fuel A h = Ok ms ->
         forall pm, In pm ms ->
-          exists cp, nth_error cs (N.to_nat (fst pm)) = Some cp
-                     /\ forall c, In c cp -> holds D h c (snd pm).
+          Inv h (snd pm)
+          /\ exists cp, nth_error cs (N.to_nat (fst pm)) = Some cp
+                        /\ forall c, In c cp -> holds D h c (snd pm).
 Proof. exact @run_sound. Qed.
 
 Theorem c01_string_run_sound :
@@ -32,9 +34,11 @@ Theorem c01_string_run_sound :
         exists cp, nth_error cs (N.to_nat (fst pm)) = Some cp
                    /\ forall c, In c cp -> holds string_dom h c (snd pm).
 Proof.
-  intros A L cs. apply (run_sound string_dom string_dom_eq (fun _ => True) s_goodb atoms_self string_lawful).
-  - intros h c m. apply atoms_self_sound.
-  - intros h c m. apply atoms_self_complete.
+  intros A L cs C h fuel ms R pm Hin.
+  refine (proj2 (run_sound string_dom string_dom_eq (fun _ _ => True) s_goodb atoms_self string_lawful
+                   _ _ A L cs C h fuel ms R pm Hin)).
+  - intros h0 c m. apply atoms_self_sound.
+  - intros h0 c m. apply atoms_self_complete.
 Qed.
 
 Theorem c01_matrix_run_sound :
@@ -43,12 +47,63 @@ Theorem c01_matrix_run_sound :
     forall (h : mhost) (fuel : nat) (ms : list (N * mpm)),
       run matrix_dom fuel A h = Ok ms ->
       forall pm, In pm ms ->
-        exists cp, nth_error cs (N.to_nat (fst pm)) = Some cp
-                   /\ forall c, In c cp -> holds matrix_dom h c (snd pm).
+        m_inv h (snd pm)
+        /\ exists cp, nth_error cs (N.to_nat (fst pm)) = Some cp
+                      /\ forall c, In c cp -> holds matrix_dom h c (snd pm).
 Proof.
-  intros A L cs. apply (run_sound matrix_dom matrix_dom_eq mm_wf m_goodb atoms_self matrix_lawful).
+  intros A L cs. apply (run_sound matrix_dom matrix_dom_eq m_inv m_goodb atoms_self matrix_lawful).
   - intros h c m. apply atoms_self_sound.
   - intros h c m. apply atoms_self_complete.
+Qed.
+
+(** Strings, against the occurrence semantics (Spec/Occ.v): every match reported
+    for a non-empty pattern is anchored at a character position where the
+    pattern occurs (each literal equals the host character, equal variables see
+    equal characters, every cell lies on an existing character). *)
+Theorem c01_string :
+  forall (pats : list spattern) (A : automaton N cpredicate) (L : labelling),
+    lab_ok string_dom s_goodb atoms_self A L (map s_cvec pats) = true ->
+    forall (h : shost) (fuel : nat) (ms : list (N * spm)),
+      run string_dom fuel A h = Ok ms ->
+      forall pid m, In (pid, m) ms ->
+        exists p, nth_error pats (N.to_nat pid) = Some p
+                  /\ (p = [] \/ exists a len, m = SBound a len /\ occ_string p h a).
+Proof.
+  intros pats A L C h fuel ms R pid m Hin.
+  destruct (c01_string_run_sound A L _ C h fuel ms R (pid, m) Hin) as [cp [Hn Hall]]. cbn in Hn, Hall.
+  rewrite nth_error_map in Hn. destruct (nth_error pats (N.to_nat pid)) as [p|]; [|discriminate].
+  inversion Hn; subst. exists p. split; auto.
+  destruct p as [|cv p']; [now left|right].
+  apply s_constraints_sound; [discriminate|exact Hall].
+Qed.
+
+(** Matrices: every reported match is anchored at an existing host cell on which
+    the pattern occurs. *)
+Theorem c01_matrix :
+  forall (pats : list mpattern) (A : automaton mkey cpredicate) (L : labelling),
+    lab_ok matrix_dom m_goodb atoms_self A L (map m_cvec pats) = true ->
+    forall (h : mhost) (fuel : nat) (ms : list (N * mpm)),
+      run matrix_dom fuel A h = Ok ms ->
+      forall pid m, In (pid, m) ms ->
+        exists p, nth_error pats (N.to_nat pid) = Some p
+                  /\ exists s a b, m = MBound s a b /\ occ_matrix p h s.
+Proof.
+  intros pats A L C h fuel ms R pid m Hin.
+  destruct (c01_matrix_run_sound A L _ C h fuel ms R (pid, m) Hin) as [Iv [cp [Hn Hall]]]. cbn in Iv, Hn, Hall.
+  rewrite nth_error_map in Hn. destruct (nth_error pats (N.to_nat pid)) as [p|]; [|discriminate].
+  inversion Hn; subst. exists p. split; auto.
+  apply m_constraints_sound; assumption.
+Qed.
+
+(** D2 (repaired by commit 8a57af0): with the constraint vector of the pinned
+    commit a variable that occurs once is never required to exist. *)
+Theorem c01_matrix_pinned_refuted :
+  exists (p : mpattern) (h : mhost) (s : mval),
+    forallb (cvalb (m_char_of h s)) (m_cvec_pinned p) = true /\ ~ occ_matrix p h s.
+Proof.
+  exists [[Some (Var 120); Some (Var 121)]]%N, [[120]]%N, (0, 0)%N. split.
+  - vm_compute. reflexivity.
+  - intros C. apply occ_matrix_iff in C. vm_compute in C. discriminate.
 Qed.
 
 (** Non-vacuity: a real dumped automaton passes the certificate and reports
@@ -63,3 +118,6 @@ Proof. split; vm_compute; reflexivity. Qed.
 Print Assumptions c01_run_sound.
 Print Assumptions c01_string_run_sound.
 Print Assumptions c01_matrix_run_sound.
+Print Assumptions c01_string.
+Print Assumptions c01_matrix.
+Print Assumptions c01_matrix_pinned_refuted.
